@@ -1463,5 +1463,6 @@ package yqlib
 //@   requires lhs != nil && rhs != nil
 //@   ensures @integers-agree {C15} implies(lhs.Tag == "!!int" && rhs.Tag == "!!int", (result1 == nil) == (intOk(lhs.Value) && intOk(rhs.Value)) && implies(result1 == nil, result0 == relHolds(prefs, sign(intOf(lhs.Value) - intOf(rhs.Value)))))
 //@   ensures @strings-agree {C15} implies(lhs.Tag == "!!str" && rhs.Tag == "!!str" && !timeOk(ite(context.datetimeLayout != "", context.datetimeLayout, "2006-01-02T15:04:05Z07:00"), lhs.Value), result1 == nil && result0 == relHolds(prefs, strcmp(lhs.Value, rhs.Value)))
+//@   ensures @numbers-agree-by-value {C15} implies((lhs.Tag == "!!float" || rhs.Tag == "!!float") && (lhs.Tag == "!!int" || lhs.Tag == "!!float") && (rhs.Tag == "!!int" || rhs.Tag == "!!float") && result1 == nil, result0 == relHolds(prefs, rsign(fltOf(lhs.Value) - fltOf(rhs.Value))))
 //@   ensures @null-sorts-first {C15} implies(lhs.Tag == "!!null" && (rhs.Tag == "!!int" || rhs.Tag == "!!float" || rhs.Tag == "!!bool"), result1 == nil && result0 == relHolds(prefs, 0 - 1))
 //@   ensures @strings-that-look-like-times-compare-as-strings {C15} implies(lhs.Tag == "!!str" && rhs.Tag == "!!str" && context.datetimeLayout == "" && result1 == nil, result0 == relHolds(prefs, strcmp(lhs.Value, rhs.Value)))
